@@ -32,6 +32,20 @@ class Leaf:
         self.val = val
 
 
+class Node:
+    """collection-like user class: an empty container is falsy (len() == 0) although it may still hold a `head`"""
+
+    def __init__(self, parent=None, name=None, up=None, head=None, items=None):
+        self.parent = parent
+        self.name = name
+        self.up = up
+        self.head = head
+        self.items = items
+
+    def __len__(self):
+        return len(self.items)
+
+
 def parent_path(p):
     return p[:-1]
 
@@ -40,7 +54,7 @@ def mm(user):
     if user not in _S:
         from textx import metamodel_from_str
 
-        _S[user] = metamodel_from_str(trees.GRAMMAR, classes=[Leaf] if user else None)
+        _S[user] = metamodel_from_str(trees.GRAMMAR, classes=[Leaf, Node] if user == "sized" else [Leaf] if user else None)
     return _S[user]
 
 
@@ -153,7 +167,7 @@ def work(arg):
         elif paths:
             refs += [(paths[-1], paths[0]), (paths[0], paths[-1])]
         for ref in refs:
-            for user in (False, True):
+            for user in (False, True, "sized"):
                 cid = [f, ref, user]
                 try:
                     with watchdog(20):
@@ -181,7 +195,7 @@ def run(ctx):
         units += [(fs[i:i + 4], wr) for i in range(0, len(fs), 4)]
     ctx.pmap(work, units)
     return {
-        "rule": "case = (forest, optional reference src->dst, user class on/off); per case: parent and get_model for every object, get_children for "
+        "rule": "case = (forest, optional reference src->dst, classes: generated / user class Leaf / user classes Leaf and a collection-like Node that is falsy when it has no items); per case: parent and get_model for every object, get_children for "
                 "4 selectors x 3 should_follow x 2 orders from every start object, get_children_of_type / get_parent_of_type for every start x type "
                 "(by name and by class). plan (objects, all references?) = %s; non-trivial = more than one object" % (plan,),
         "exhaustive": True, "forests": nf,
